@@ -19,7 +19,8 @@ RULE = ("a case is one schema-expressible spec (scenario x planning-problem set,
         "distinct = distinct canonical JSON of (spec, precision)")
 ASSUMPTIONS = [
     "lxml / ElementTree serialisation and parsing are the identity on element trees of plain ASCII text (sampled by the correspondence)",
-    "str(numpy.float64) / float(str) are a correctly rounded round trip; the model receives str(float64(x)) as a parameter",
+    "str(numpy.float64) / float(str) are a correctly rounded round trip; the model receives str(float64(x)) as a parameter, and for "
+    "reprs in exponent notation also format(x, '.<d>f') (float_to_str) and np.format_float_positional(x, trim='0') (decimal_to_str)",
     "schema-expressible is read narrowly where the property text leaves the domain open: initial states are InitialState objects, "
     "stop lines have explicit points, shape groups have >= 2 members, additional sign values are non-empty strings, a dynamic "
     "obstacle has a prediction, interval bounds are ordered, polygons are non-degenerate (extent >> 10^-d)",
@@ -214,7 +215,13 @@ class Reals:
         return s
 
     def fix(self, d):
+        """float_to_str's exponent branch: format(f, ".<d>f")"""
         return [[s, format(v, ".{}f".format(d))] for s, v in self.seen.items() if "e" in s]
+
+    def pos(self):
+        """decimal_to_str's exponent branch: np.format_float_positional(f, trim="0")"""
+        import numpy as np
+        return [[s, np.format_float_positional(v, trim="0")] for s, v in self.seen.items() if "e" in s or "E" in s]
 
 
 def m_pt(R, p):
@@ -359,13 +366,13 @@ def m_doc(R, sc, pps):
 _CFG = {}
 
 
-def model_cfg(country, d, fix):
+def model_cfg(country, d, fix, pos=()):
     from commonroad.scenario.state import SpecificStateClasses
     from commonroad.scenario.traffic_sign import TrafficSignIDCountries
     if "classes" not in _CFG:
         _CFG["classes"] = [list(c().attributes) for c in SpecificStateClasses]
     en = TrafficSignIDCountries[country]
-    return {"P": {"d": d, "fix": fix}, "classes": _CFG["classes"], "signVals": [m.value for m in en],
+    return {"P": {"d": d, "fix": fix, "pos": [list(x) for x in pos]}, "classes": _CFG["classes"], "signVals": [m.value for m in en],
             "maxSpeed": en.MAX_SPEED.value if hasattr(en, "MAX_SPEED") else None}
 
 
@@ -399,7 +406,7 @@ def correspond(ctx, case, spec, d, path, sc, pps, sc2, pps2):
     country = spec["scenario_id"]["country"]
     R = Reals()
     doc = m_doc(R, sc, pps)
-    cfg = model_cfg(country, d, R.fix(d))
+    cfg = model_cfg(country, d, R.fix(d), R.pos())
     root = etree.parse(path).getroot()
     kids = [xml_json(c) for c in root]
     body = [k for k in kids if k[0] not in ("location", "scenarioTags")]
